@@ -199,6 +199,49 @@ where
     }
 }
 
+/// BLS12-381 base field modulus as little-endian `u64` limbs.
+const FP_MODULUS: [u64; 6] = [
+    0xb9fe_ffff_ffff_aaab,
+    0x1eab_fffe_b153_ffff,
+    0x6730_d2a0_f6b0_f624,
+    0x6477_4b84_f385_12bf,
+    0x4b1b_a7b6_434b_acd7,
+    0x1a01_11ea_397f_e69a,
+];
+
+/// Checks that a raw `G1Affine` encoding (two coordinates of six
+/// little-endian limbs each, followed by the infinity flag) is one that
+/// [`G1Affine::to_raw_bytes`] can produce: the flag is `0` or `1`, both
+/// coordinates are reduced modulo the base field modulus, and the point at
+/// infinity uses its unique encoding.
+fn raw_g1_is_canonical(chunk: &[u8]) -> bool {
+    if chunk.len() != G1Affine::RAW_SIZE {
+        return false;
+    }
+
+    match chunk[G1Affine::RAW_SIZE - 1] {
+        0 => {}
+        1 => return chunk == G1Affine::identity().to_raw_bytes().as_slice(),
+        _ => return false,
+    }
+
+    chunk[..G1Affine::RAW_SIZE - 1].chunks_exact(48).all(|coordinate| {
+        // Compare limb by limb from the most significant one.
+        for (limb, modulus) in
+            coordinate.chunks_exact(8).zip(FP_MODULUS.iter()).rev()
+        {
+            let mut bytes = [0u8; 8];
+            bytes.copy_from_slice(limb);
+            let limb = u64::from_le_bytes(bytes);
+            if limb != *modulus {
+                return limb < *modulus;
+            }
+        }
+        // Equal to the modulus: not reduced.
+        false
+    })
+}
+
 impl CommitKey {
     /// Serialize the [`CommitKey`] into bytes.
     ///
@@ -284,6 +327,12 @@ impl CommitKey {
         let mut powers_of_g = Vec::with_capacity(len);
 
         for chunk in bytes[u64::SIZE..].chunks_exact(G1Affine::RAW_SIZE) {
+            // The unchecked decoder below trusts the infinity flag and the
+            // coordinate limbs blindly: reject malformed raw encodings first.
+            if !raw_g1_is_canonical(chunk) {
+                return Err(Error::PointMalformed);
+            }
+
             // Safety: raw-byte chunk size is checked by `chunks_exact`.
             let point = unsafe { G1Affine::from_slice_unchecked(chunk) };
             let point_is_valid =
